@@ -18,6 +18,16 @@
 #include <utility>
 #include <vector>
 
+// ROOT's TVector2 (only what DeltaR uses)
+struct TVector2 {
+  static double Phi_mpi_pi(double x) {
+    const double pi = 3.14159265358979323846;
+    while (x >= pi) x -= 2 * pi;
+    while (x < -pi) x += 2 * pi;
+    return x;
+  }
+};
+
 namespace simfw {
 
 struct TokenInfo { std::string type, bank; };
@@ -76,6 +86,10 @@ struct Elem {
   unsigned int runNumber() const { return 300000u + unsigned(i[0] + 1); }
   unsigned long long eventNumber() const { return 1000ull + (unsigned long long)(i[1] + 1); }
   bool isGood() const { return b; }
+  // xAOD "auxiliary data" access used by getAttributeFloat / getAttributeVectorFloat
+  template <class T> T getAttribute(const std::string& name) const { return aux<T>(name, static_cast<T*>(nullptr)); }
+  template <class T> T aux(const std::string& name, float*) const { return float(d[3] + double(name.size())); }
+  template <class T> T aux(const std::string& name, std::vector<double>*) const { (void)name; return dv; }
   const std::vector<double>& cvals() const { return dv; }
   const std::vector<int>& ivals() const { return iv; }
   void fill(Rng& r) {
